@@ -4,7 +4,7 @@ INC = ['spec/urlspec.h', 'spec/scan.h', 'spec/ref_pct.h', 'spec/agg_wf.h']
 OM = [('omitted', 'const unsigned int')]
 
 
-def editor(name, roots, cap=10, bufn=4, props=('C07', 'C19', 'C02'), tier='quick', timeout=1200, extra_globals=()):
+def editor(name, roots, cap=10, bufn=4, props=('C07', 'C19', 'C03', 'C04', 'C02'), tier='quick', timeout=1200, extra_globals=()):
     OBLS.append(Obl('C07.%s.view/c%d' % (name, cap), list(props), 'B(%d)' % cap, 'c07/%s.c' % name, roots=roots + ['agg_validate'],
                     bufn=bufn, unwind=cap + 2, defines=['STR_CAP=%d' % cap, 'BUF_START=1'], includes=INC, globals=OM + list(extra_globals),
                     solver='cadical', timeout=timeout, tier=tier, bound='href <= %d bytes, input <= %d bytes' % (cap, bufn),
